@@ -11,7 +11,8 @@ Local Open Scope Z_scope.
 
 (* ---- srtp_valid_policy ---- *)
 Definition valid_policy (p : policy) : Z :=
-  if p_usekey p then
+  if (SRTP_MAX_TAG_LEN_c <? cp_taglen (p_rtp p)) || (SRTP_MAX_TAG_LEN_c <? cp_taglen (p_rtcp p)) then st_bad_param
+  else if p_usekey p then
     if p_use_mki p || negb (p_mki_size p =? 0) then st_bad_param else st_ok
   else
     if p_nkeys p <=? 0 then st_bad_param
@@ -137,7 +138,10 @@ Definition derive_keys (p : policy) (mkey mki : bytes) : Z * option derived :=
   let rtcp_keylen := cp_keylen (p_rtcp p) in
   let rtp_base := base_key_length rtp_alg rtp_keylen in
   let rtp_salt := rtp_keylen - rtp_base in
-  if (rtp_keylen <? input_keylen) && (rtcp_keylen <? input_keylen) then (st_bad_param, None)
+  if (MAX_SRTP_KEY_LEN_c <? rtp_keylen) || (MAX_SRTP_KEY_LEN_c <? rtcp_keylen)
+     || (MAX_SRTP_KEY_LEN_c <? cp_authkeylen (p_rtp p)) || (MAX_SRTP_KEY_LEN_c <? cp_authkeylen (p_rtcp p))
+  then (st_bad_param, None)
+  else if (rtp_keylen <? input_keylen) && (rtcp_keylen <? input_keylen) then (st_bad_param, None)
   else
     let kdf_keylen :=
       if (kdf_keylen_small_c <? rtp_keylen) || (kdf_keylen_small_c <? rtcp_keylen) || (kdf_keylen_small_c <? input_keylen)
